@@ -15,8 +15,13 @@ def load(prop):
     p = VERIF / 'KNOWN_FINDINGS.json'
     if not p.exists():
         return []
-    doc = json.loads(p.read_text())
-    return [f for f in doc.get('findings', []) if f.get('property') == prop and f.get('kind') == 'known']
+    items = list(json.loads(p.read_text()).get('findings', []))
+    # per-property staging files (same entry format), merged into the main file when reviewed
+    d = VERIF / 'KNOWN_FINDINGS.d'
+    if d.is_dir():
+        for q in sorted(d.glob('*.json')):
+            items.extend(json.loads(q.read_text()).get('findings', []))
+    return [f for f in items if f.get('property') == prop and f.get('kind') == 'known']
 
 
 def match(known, key):
